@@ -129,21 +129,21 @@ PROPS["C15"] = {
     "bounds": {"quick": "Router histories depth<=4 (depth 4 with transactions on); other alphabets at their quick bounds under a per-part deadline", "thorough": "Router histories depth 5; other alphabets with longer deadlines"},
     "assumptions": ["legality of a history is decided by the scene model in harness/c15_router.cpp from the documented preconditions only", "uninitialised reads are caught where they reach a sanitizer check (bool/enum loads, pattern-filled locals) or a library assertion; there is no MemorySanitizer pass", "parts that hit their deadline report exhaustive:false"],
     "parts": [
-        SAN("router_histories", "c15_router.cpp", [], 90, 900),
-        SAN("vpsc", "c01_vpsc.cpp", ["--prop", "C01"], 25, 300, 10),
-        SAN("routing", "c03_routing.cpp", ["--prop", "C03"], 25, 300),
-        SAN("incremental", "c06_incremental.cpp", [], 20, 300),
-        SAN("nudging", "c10_nudging.cpp", [], 20, 300),
+        SAN("router_histories", "c15_router.cpp", [], 60, 900),
+        SAN("vpsc", "c01_vpsc.cpp", ["--prop", "C01"], 12, 300, 10),
+        SAN("routing", "c03_routing.cpp", ["--prop", "C03"], 15, 300),
+        SAN("incremental", "c06_incremental.cpp", [], 12, 300),
+        SAN("nudging", "c10_nudging.cpp", [], 12, 300),
         SAN("pins", "c11_pins.cpp", [], 15, 200),
         SAN("hyperedges", "c12_hyperedge.cpp", [], 20, 300),
-        SAN("cola", "c07_cola.cpp", ["--prop", "C07"], 25, 300, 8),
-        SAN("cola_overlap_clusters", "c07_cola.cpp", ["--prop", "C08"], 20, 300, 8),
+        SAN("cola", "c07_cola.cpp", ["--prop", "C07"], 15, 300, 8),
+        SAN("cola_overlap_clusters", "c07_cola.cpp", ["--prop", "C08"], 12, 300, 8),
         SAN("overlaps", "c09_overlaps.cpp", [], 10, 100),
-        SAN("topology", "c13_topology.cpp", [], 15, 200),
-        SAN("hola", "c14_hola.cpp", [], 30, 400, 60),
+        SAN("topology", "c13_topology.cpp", [], 10, 200),
+        SAN("hola", "c14_hola.cpp", [], 20, 400, 60),
         SAN("decompositions", "c19_decomp.cpp", [], 15, 200),
         SAN("paths", "c17_paths.cpp", [], 5, 60),
-        SAN("transforms", "c18_transforms.cpp", [], 10, 100),
+        SAN("transforms", "c18_transforms.cpp", [], 8, 100),
     ],
 }
 PROPS["C20"] = {
